@@ -48,8 +48,12 @@ ENTRY = {'title': 'Payload decoding conforms to the ecoNET wire layout for every
              'schedules, alerts, UID, password': 'theorem (rt_schedules, rt_alerts, rt_uid, rt_password)',
              'names / constants / tables': 'table (translator + decide lemmas)',
              'decoding gives the same result every time, whatever device the frame belongs to: what each kind may read of the owning device':
-                 'theorem (Model/DecodeCtx: C05.ctx_irrelevant_* for eight kinds, ctx_irrelevant, product_type_irrelevant, thermostat_reads_only_the_count, '
-                 'regdata_reads_only_the_schema, regdata_no_device_is_empty_schema; device level (Props/C05CtxDevice over Model/DeviceData): device_thermo_decodes_with_ctx, device_regdata_decodes_with_ctx, applyThermo_count, handleRegdata_schema, handled_again_same_decode (after a device has handled a frame, the payload of that frame decodes for this device to what it decoded to before); thermostat_ctx_relevant / regdata_ctx_relevant: the two dependences are real) + '
+                 'by construction of `Ctx5.decode` (Model/DecodeCtx does not pass the context to these decoders; eleven `rfl` results, MODELLING DECISIONS whose content is harness/c05_ctx.py): '
+                 'C05.ctx_irrelevant_* for eight kinds, product_type_irrelevant, regdata_no_device_is_empty_schema, device_thermo_decodes_with_ctx, device_regdata_decodes_with_ctx '
+                 '(and their per-family restatements ctx_irrelevant, thermostat_reads_only_the_count, regdata_reads_only_the_schema); '
+                 'theorem (real content; Props/C05CtxDevice over Model/DeviceData): applyThermo_count, handleRegdata_schema (handling a frame leaves alone what its own decode reads of the device), '
+                 'handled_again_same_decode (after a device has handled a frame, the payload of that frame decodes for this device to what it decoded to before); '
+                 'thermostat_ctx_relevant / regdata_ctx_relevant: witnesses that the two dependences are real + '
                  'correspondence (harness/c05_ctx.py: every class with a decode_message of its own x 9-10 contexts, grouped by what the theorem allows; device level: one '
                  'frame object handled by a device, again, by a second device, fresh frame after the device data changed; payload bytes compared at every step)',
              'decoding is pure and repeatable': 'definitional in the model + correspondence (decode twice, fresh frame, payload bytes unchanged)',
